@@ -9,7 +9,7 @@ TRUSTED = ['std BTreeMap iterates in key order; VecDeque push_front/pop_back/pop
 
 def gen_cases(ctx):
     rnd = ctx['rnd']; tier = ctx['tier']
-    n = 250 if tier == 'quick' else 8000
+    n = 2000 if tier == 'quick' else 8000
     triples = []
     for i in range(n):
         cfg = gen.pipeline_cfg(rnd, want_limit=True)
